@@ -215,23 +215,22 @@ Proof.
   assert (Rr = 0) by (unfold Rdiv in H; lra). subst. field.
 Qed.
 
-(** ** _get_path_length: recorded optical path to the image minus the distance to the sphere *)
+(** ** _get_path_length: recorded optical path to the image minus the optical length of the segment
+    sphere -> image point in the image-space medium *)
 Theorem path_length_unfold :
-  forall xc yc zc Rr opd xr yr zr L M N opds xs ys zs Ls Ms Ns,
-    k_wf_get_path_length ROps xc yc zc Rr (opds ++ [opd]) (xs ++ [xr]) (ys ++ [yr]) (zs ++ [zr])
+  forall xc yc zc Rr opd n xr yr zr L M N opds xs ys zs Ls Ms Ns,
+    k_wf_get_path_length ROps xc yc zc Rr (opds ++ [opd]) n (xs ++ [xr]) (ys ++ [yr]) (zs ++ [zr])
                      (Ls ++ [L]) (Ms ++ [M]) (Ns ++ [N])
-    = opd - t_xp xc yc zc Rr xr yr zr L M N xs ys zs Ls Ms Ns.
+    = opd - Rabs n * t_xp xc yc zc Rr xr yr zr L M N xs ys zs Ls Ms Ns.
 Proof. intros. unfold k_wf_get_path_length, t_xp. rewrite getZ_last. rops. reflexivity. Qed.
 
-(** with a unit direction the subtracted distance is a geometric length, so the result is the optical
-    path to the sphere exactly when the image-space index is 1 (partial: hypothesis [n_img = 1]) *)
-Theorem path_length_is_path_to_sphere_partial :
-  forall n_img xc yc zc Rr opd xr yr zr L M N opds xs ys zs Ls Ms Ns,
-    n_img = 1 ->
-    k_wf_get_path_length ROps xc yc zc Rr (opds ++ [opd]) (xs ++ [xr]) (ys ++ [yr]) (zs ++ [zr])
+(** the result is the optical path to the sphere in an image space of index |n| *)
+Theorem path_length_is_path_to_sphere :
+  forall xc yc zc Rr opd n xr yr zr L M N opds xs ys zs Ls Ms Ns,
+    k_wf_get_path_length ROps xc yc zc Rr (opds ++ [opd]) n (xs ++ [xr]) (ys ++ [yr]) (zs ++ [zr])
                      (Ls ++ [L]) (Ms ++ [M]) (Ns ++ [N])
-    = path_to_sphere 0 opd n_img (t_xp xc yc zc Rr xr yr zr L M N xs ys zs Ls Ms Ns).
-Proof. intros. rewrite path_length_unfold. unfold path_to_sphere. subst. Req. ring. Qed.
+    = path_to_sphere 0 opd (Rabs n) (t_xp xc yc zc Rr xr yr zr L M N xs ys zs Ls Ms Ns).
+Proof. intros. rewrite path_length_unfold. unfold path_to_sphere. Req. ring. Qed.
 
 (** hypotheses are satisfiable: a ray hitting the image plane at (1,0,0), centre at the origin, sphere
     of radius 5, direction +z: the intersection behind the image point is at distance sqrt 24 *)
